@@ -74,11 +74,14 @@ TEMPLATES = {
     "trideg": (12, [("tri", [0, 3, 4]), ("tri", [3, 5, 6]), ("tri", [4, 7, 8]), ("tri", [1, 9, 10]), ("tri", [1, 2, 11])]),
     # two diamonds whose corners mix two edge topologies (outer cycle / inner chord); annotations chosen so that the hub swap is evaluated
     "diamond2pair": (8, [("diamond2", [0, 1, 2, 3]), ("diamond2", [4, 5, 6, 7])]),
+    # the same excess-degree 4-tuple (1,1,1,1) is a pairing of BOTH topologies (annotations below)
+    "twotopo": (10, [("tri", [0, 1, 2]), ("edge", [3, 4]), ("edge", [5, 6]), ("tri", [7, 8, 9])]),
     "c4pair": (7, [("c4", [0, 1, 2, 3]), ("c4", [2, 4, 5, 6]), ("edge", [0, 4])]),
 }
 
 
-ANNOTATIONS = {"diamond2pair": [(2, 1), (2, 0), (2, 1), (2, 0), (3, 1), (3, 0), (4, 1), (3, 0)]}
+ANNOTATIONS = {"diamond2pair": [(2, 1), (2, 0), (2, 1), (2, 0), (3, 1), (3, 0), (4, 1), (3, 0)],
+               "twotopo": [(1, 2), (1, 2), (1, 2), (2, 1), (2, 1), (3, 1), (4, 1), (1, 3), (1, 4), (1, 4)]}
 
 
 def template_cfg(cfg):
@@ -328,8 +331,14 @@ def install_repeat_pruning(ctx):
             snap = snapshot(G)
         except Exception:  # noqa
             return
+        # hidden state: any attribute of the rewiring object other than the per-proposal scratch fields must be unchanged too
+        me = loc.get("self")
+        fp = ()
+        if me is not None:
+            skip = {"_proposal_edges", "_acceptance_ratio", "_proposal_count", "_proposals_accepted", "_network", "_ejks", "_logger", "swap_condition"}
+            fp = tuple((k, repr(v)[:2000]) for k, v in sorted(vars(me).items()) if k not in skip)
         key = (site, loc.get("convergence_count"), loc.get("search_count") if site == "e1" else None,
-               tuple(int(x) for x in loc["e0"]) if site == "e1" and "e0" in loc else None, repr(snap), tuple(sorted(map(repr, seq))))
+               tuple(int(x) for x in loc["e0"]) if site == "e1" and "e0" in loc else None, repr(snap), tuple(sorted(map(repr, seq))), fp)
         if key in seen:
             raise PathAbort("repeat-state")
         seen.add(key)
